@@ -13,6 +13,7 @@ TRUSTED_BASE = [
 PROPS = {
     "C01": {
         "module": "Cdecao.Props.C01",
+        "extra_modules": ["Cdecao.Props.EngineTie"],
         "theorems": ["Props.C01", "Props.C01_node", "Props.C01_valid", "Props.C01_C08_cde"],
         "streams": ["node", "node-rooms", "solve", "cdedb-read", "e2e-cde", "cli-simple", "node-exhaustive"],
     },
@@ -25,7 +26,7 @@ PROPS = {
     },
     "C03": {
         "module": "Cdecao.Props.C03",
-        "extra_modules": ["Cdecao.Props.EngineTie"],
+        "extra_modules": ["Cdecao.Props.EngineTie", "Cdecao.Props.MainC03"],
         "theorems": ["Props.C03", "Props.C03_bounded_of_spec", "Props.C03_caobab", "Props.C03_F11_not_bounded", "Props.F11_root", "Props.F11_enforce2", "Props.F11_enforce2_cancel0"],
         "streams": ["engine", "solve", "solve-rooms", "engine-exhaustive", "cli-simple"],
     },
@@ -48,6 +49,7 @@ PROPS = {
     },
     "C06": {
         "module": "Cdecao.Props.C06",
+        "extra_modules": ["Cdecao.Props.EngineTie", "Cdecao.Props.C18E2E"],
         "theorems": ["Props.C06", "Props.C06_node", "Props.C06_exec"],
         "streams": ["node-rooms", "solve-rooms", "e2e-cde", "cli-simple", "node-exhaustive"],
     },
@@ -59,6 +61,7 @@ PROPS = {
     },
     "C08": {
         "module": "Cdecao.Props.C08",
+        "extra_modules": ["Cdecao.Props.EngineTie"],
         "theorems": ["Props.C08_score", "Props.C08_score_valid", "Props.C08_max_ge", "Props.C08_quality_identity", "Props.C08_quality_lack",
                      "Props.C08_combined", "Props.C08_quality_max", "Props.C08_quality_engine", "Props.C01_C08_cde"],
         "streams": ["node", "node-rooms", "solve", "solve-rooms", "cli-simple", "e2e-cde", "node-exhaustive"],
@@ -71,7 +74,7 @@ PROPS = {
     },
     "C10": {
         "module": "Cdecao.Props.C10",
-        "extra_modules": ["Cdecao.Props.Main", "Cdecao.Props.PanicTie", "Cdecao.Props.MainE2E", "Cdecao.Props.C10U32"],
+        "extra_modules": ["Cdecao.Props.Main", "Cdecao.Props.PanicTie", "Cdecao.Props.MainE2E", "Cdecao.Props.C10U32", "Cdecao.Props.EngineTie"],
         "theorems": ["Props.main_simple_total", "Props.main_cde_total", "Props.panic_sites_tie", "Props.C10_node", "Props.C10_tree", "Props.C10_cli", "Props.C10_cde", "Props.C10_main", "Props.C10_main_threads", "Props.main_skeleton_tie"],
         "streams": ["node", "node-rooms", "solve", "cli-simple", "cli-main", "node-exhaustive"],
     },
@@ -112,11 +115,13 @@ PROPS = {
     },
     "C17": {
         "module": "Cdecao.Props.C17",
+        "extra_modules": ["Cdecao.Props.EngineTie"],
         "theorems": ["Props.C17_rooms_le_opt", "Props.C17_rooms_nonbinding", "Props.C17_rooms_nonbinding_search"],
         "streams": ["roompairs", "solve-rooms", "node-rooms"],
     },
     "C18": {
         "module": "Cdecao.Props.C18",
+        "extra_modules": ["Cdecao.Props.C18E2E"],
         "theorems": ["Props.C18_sound", "Props.C18_nonempty", "Props.C18_dedup"],
         "streams": ["rooms", "cli-simple", "e2e-cde"],
     },
@@ -147,7 +152,7 @@ LEVELS = {
             "note": _NODE + " " + _ENG + " Partial with respect to the full property: inside the F1 class the property is false of the code (known finding), the theorem covers the complement."},
     "C17": {"text": "Theorem Props.C17_rooms_le_opt: with any room list the reported score is the documented score of an assignment satisfying the hard constraints, hence at most any upper bound of the room-free optimum (all T, schedules). Props.C17_rooms_nonbinding: with a room list that cannot bind (every room among the I.C largest at least as large as any course can become, R.eff c n for n <= num_max + #instructors — no monotonicity of the float formula needed) every node result equals the one without room list; C17_rooms_nonbinding_search lifts it to identical reachable engine configurations for every thread count and schedule. Paired real runs (identical verdict, score and node-by-node identical search trees) and the brute-force optimum tie it to the code.",
             "note": _NODE + " The effective size is the documented formula as evaluated in f32 (the paired-run generator includes the f32/f64 corner)."},
-    "C03": {"text": "Theorem Props.C03: two finished runs of the engine model on a bounded tree agree on found/score for all thread counts and schedules. Props.C03_caobab discharges the premise for the caobab node solver (valid instances outside the F1 class, with or without rooms, any float behaviour); inside the F1 class the property is FALSE of the code (known finding F11: a child's relaxation can exceed its parent's, so the score depends on the schedule; Props.C03_F11_not_bounded proves `¬ Bounded` of the model on a 3-course witness with the node results evaluated by the kernel, and the witness is replayed on the real code under seeded schedules on every run); a schedule-dependent verdict is the known finding only if the instance is in the class AND the model's own tree is not Bounded; anything else is a violation.",
+    "C03": {"text": "Program level (Props/MainC03.lean): front_threads_irrelevant (the worker count reaches only Problem.threads; document, room list and kinds are the same), front_refusal_threads_irrelevant, main_simple_threads_irrelevant / main_cde_threads_irrelevant (valid instance outside the class of F11, rooms allowed: two finished searches with any two positive worker counts — option or CPU count — and any schedules agree on verdict and score, and the program exits with the same status). Structural ties: synchronisation skeleton of bab.rs incl. the types of the shared fields, and the wiring of caobab::solve (Props.solve_wiring_tie: the node solver handed to the engine is run_bab_node on the precomputed problem, the worker count goes to bab::solve only). Theorem Props.C03: two finished runs of the engine model on a bounded tree agree on found/score for all thread counts and schedules. Props.C03_caobab discharges the premise for the caobab node solver (valid instances outside the F1 class, with or without rooms, any float behaviour); inside the F1 class the property is FALSE of the code (known finding F11: a child's relaxation can exceed its parent's, so the score depends on the schedule; Props.C03_F11_not_bounded proves `¬ Bounded` of the model on a 3-course witness with the node results evaluated by the kernel, and the witness is replayed on the real code under seeded schedules on every run); a schedule-dependent verdict is the known finding only if the instance is in the class AND the model's own tree is not Bounded; anything else is a violation.",
             "note": _ENG + " Partial only inside the F1 class (instructors with own choices of non-fixed courses), where `Bounded` is not proved."},
     "C04": {"text": "Theorems Props.C04_no_deadlock, C04_done_means_finished, C04_stats_step, C04_bounded_work C04_exactly_once_at_done (ghost history: at AllDone the multiset of generated subproblems = solved ⊎ bounded, none twice, none lost, and the counters are the lengths), C04_run_bound_init (a run from init with at most s wake events has at most W root + 3T + 3(T² + s) non-wake events) and C04_stats_at_done (at AllDone: executed = no-solution + infeasible + feasible and generated = executed + bound, for every reachable run of the product system), C04_done_absorbing, over the engine model; the budget hypothesis is discharged for caobab by C04_caobab_wf / C04_caobab_budget / C04_caobab_run_bound / C04_caobab_gen_bound (for EVERY instance and room arithmetic the child relation of run_bab_node's model is well-founded, treeSize is defined by well-founded recursion, 5·treeSize is a budget, every run has at most 5·treeSize + 3T + 3(T²+s) non-wake events and generates at most treeSize subproblems); TERMINATION (Engine/Terminate.lean): C04_terminates (from every reachable configuration some wake-free continuation finishes within the bound and EVERY wake-free continuation extends to a finishing one within the same bound — no scheduler choice among non-wake events avoids termination), C04_terminates_maximal (a run can only stop when all workers have stopped), C04_terminates_infinite / C04_terminates_spurious (an infinite run contains infinitely many wake-ups, and — with notify_one-caused wake-ups counted by a ghost layer and bounded by the number of generated subproblems — infinitely many SPURIOUS ones), C04_terminates_optimal (the finishing configuration holds an optimal incumbent), C04_caobab_terminates / C04_caobab_no_infinite_run (the same for caobab::solve with no hypothesis on the instance); all T >= 1 and schedules incl. spurious wake-ups; every real run under the shim is replayed through the model with all six counters compared, and the shim's deadlock detector and step budget watch the real code.",
             "note": _ENG},
@@ -175,7 +180,7 @@ LEVELS = {
             "note": "From the JSON value on; bytes -> value (serde_json), option parsing (clap) are only enumerated. The rooms file goes through serde's derived visitor, whose positional (array of exactly three) form of a room kind is modelled and generated; duplicate member names inside one JSON object are not generated."},
     "C16": {"text": "Theorems Props.C16 / C16_faults about the output stage's decision logic; the fault matrix {ok, ENOENT, EISDIR, ENAMETOOLONG, ENOTDIR, /dev/full, RLIMIT_FSIZE partial write, stale longer file} x {simple, cde} x {--print} is run exhaustively on the real binary and compared with the model (exit status, listing still printed, file complete iff exit 0). Program level: Props.C16_main (status 0 with an output path ⇒ solver ran, file created and written completely), C16_main_faults. main.rs as a whole is modelled (Model/Main.lean: MainM.front = every stage before the solver with its exit status, MainM.run = the program as a function of options, environment, solver verdict and output faults); the stage order of main.rs is re-extracted from the source on every run (Props.main_skeleton_tie) and the stream cli-main runs option/environment/document combinations with zero to three things wrong at once through the real binary against MainM.front (exit status, or the participant/course counts logged before the solver).",
             "note": "Runtime behaviour (which errno, short writes) cannot be exhibited by the model: proof of the decision logic + fault enumeration (partial by nature). Running as root, a read-only directory is not a fault."},
-    "C18": {"text": "Theorems Props.C18_sound / C18_nonempty / C18_dedup for the double loop RS.possible under ANY sorting permutation of equally sized courses; exact correspondence (strings) of get_course_room_size_list / get_course_room_kind_names with the Lean model given the rank order the real unstable sort produced, on room-feasible assignments with shuffled room lists, duplicate capacities, fewer/more rooms than courses, quantity-0 kinds; the executable specification (usable room = large enough + remaining courses still fit) is evaluated on every listing, also on the real binary's --print output.",
+    "C18": {"text": "End to end (Props/C18E2E.lean): C18_end_to_end / C18_end_to_end_meaning — whatever the parallel search REPORTS under a room list (any thread count, schedule, float behaviour) passes the room check (C06_exec), the room check implies the premise of the listing theorems (roomOKb_fits), hence every room listed for a course of a reported solution is large enough, exists and occurs in a complete allocation of distinct rooms, and every course that takes place is offered a room. Theorems Props.C18_sound / C18_nonempty / C18_dedup for the double loop RS.possible under ANY sorting permutation of equally sized courses; exact correspondence (strings) of get_course_room_size_list / get_course_room_kind_names with the Lean model given the rank order the real unstable sort produced, on room-feasible assignments with shuffled room lists, duplicate capacities, fewer/more rooms than courses, quantity-0 kinds; the executable specification (usable room = large enough + remaining courses still fit) is evaluated on every listing, also on the real binary's --print output.",
             "note": "io/rooms.rs is modelled by RS.possible / RM.possibleByCourse / RM.kindNames / RM.readKinds (exact strings under the rank order the real unstable sort produced). 'A course that takes place' is read as 'a course with positive effective size' in the non-emptiness clause (DESIGN §7 C18: with fewer rooms than courses the unchanged code lists nothing for a zero-size course, rightly)."},
     "C19": {"text": "Theorems Props.C19_no_hang / C19_bounded_work: with panicking node solvers anywhere in the tree, all T >= 1 and schedules, some non-wake step is enabled until every worker is done or dead. Props.C19_failure_reported: once a worker is dead it stays dead, the join loop of bab::solve (modelled by `outcome`) can never report success, the system is not stuck before everybody finished, and at AllFinished the join loop reports the failure. Props.C19_terminates / C19_terminates_dead / C19_terminates_dying / C19_terminates_verdict: with failing subproblems anywhere, every wake-free continuation extends within W root + 3T + 3(T²+s) steps to a configuration in which every worker has stopped, and if some worker is dying or dead the join loop there panics (outcome = some true): the search fails, it does not hang; C19_terminates_no_panic: without a panicking subproblem no worker is ever lost. Real runs with one failing node at random positions under seeded schedules: no deadlock, panic propagated, trace replays through the model.",
             "note": _ENG + " Termination is proved for every schedule with finitely many spurious wake-ups (an infinite run needs infinitely many of them); that the OS eventually schedules an enabled thread (weak fairness) is trusted."},
